@@ -317,6 +317,17 @@ def same(a, b):
     return a == b
 
 
+def same_unordered(a, b):
+    """`same`, but dict key order is not compared (Python's dict equality ignores it too)"""
+    if type(a) is not type(b):
+        return False
+    if isinstance(a, (list, tuple)):
+        return len(a) == len(b) and all(same_unordered(x, y) for x, y in zip(a, b))
+    if isinstance(a, dict):
+        return set(a.keys()) == set(b.keys()) and all(same_unordered(a[k], b[k]) for k in a)
+    return same(a, b)
+
+
 def digit_table(text):
     """Digit class of the non-ASCII characters of `text` (what the model takes as a parameter)."""
     import unicodedata
